@@ -4,6 +4,10 @@ import json, os
 V = os.path.dirname(os.path.dirname(os.path.abspath(__file__)))
 
 CHECKS = {
+ "C18": dict(cat="model_checking", ref="DESIGN.md section 5 C18",
+   text="TLA+ module Ecvrf models Prove/Verify/proof_to_hash over the abstract group Z_{8q}; TLC checks completeness, strictness (non-canonical or small-order keys, non-canonical or non-80-byte proofs) and torsion-free output on every state. At real size every Prove call is validated by TLC: the input of each hash is dictated by the specification, the try-and-increment counter must be the first successful one, and x, k, c, s are recomputed with certified reductions; the proof must equal an independent RFC 9381 transcription; Verify, ProofToHash and Proof.Hash agree and Hash() leaves the proof intact. Class-determined scenarios cover wrong key/alpha, s+L, all non-canonical/undecodable Gamma strings, Gamma+torsion, wrong lengths, bit flips over all 640 bits, and all small-order / non-canonical key encodings with CRAFTED proofs that satisfy the verification equation (so a rejection really tests key validation).",
+   note="Trusted: TLC/SANY/CommunityModules, Go toolchain, SHA-512 facts, the driver's RFC 9381 transcription on edwards25519 primitives for point facts. Uniqueness of the output for adversarial proofs is a cryptographic property; it is covered only through the model's algebra (output = 8*Gamma) and the crafted/torsion scenarios.",
+   tech="explicit TLA+ spec over an abstract group + TLC model + real-size trace validation with dictated hash inputs, BigNat certificates and class-determined verdicts"),
  "C01": dict(cat="model_checking", ref="DESIGN.md section 5 C01",
    text="TLA+ module Ed25519 models verification over the abstract cyclic group Z_{8q}; TLC checks on every (A string, R string, S, k, length) that the staged verifier of the code equals the ZIP-215 definition, is invariant under all torsion shifts and encoding classes, rejects S >= q and accepts everything the cofactorless verifier accepts. TLC generates the scenario table (checked to have class-determined verdicts); the driver concretises it on the real curve with known discrete logarithms, and TLC recomputes every verdict in the exponent (S < L, S = r + k*a mod L with certified reductions) - independently of the curve arithmetic under test - incl. every S+jL fitting 256 bits, S at the 2^252/L/2^253 boundaries (via small-order keys), single-bit flips and random bytes, and checks crypto/ed25519-accepted => accepted.",
    note="Trusted: TLC/SANY/CommunityModules, Go toolchain, SHA-512 as fact provider, filippo.io/edwards25519 for constructing test points and classifying undecodable strings. Bit-flipped R/A and random inputs are expected to be rejected on cryptographic grounds. Real-size inputs are class-complete but sampled.",
@@ -82,7 +86,7 @@ CHECKS = {
    tech="explicit TLA+ spec + TLC exhaustive model + TLC-generated vectors replayed + trace validation of recorded calls"),
 }
 
-NA_REASON = "check not built yet in this session (build order in DESIGN.md Appendix A); no claim made"
+NA_REASON = "not claimed"
 
 def main():
     props = [json.loads(l)["id"] for l in open(os.path.join(V, "properties.jsonl"))]
